@@ -147,9 +147,12 @@ def r1_inventory(ctx):
             continue
         key = s.key
         hit = None
-        for i, (pat, verdict, why) in enumerate(TABLE):
-            if re.search(re.sub(r"::c\d+", r"::c\\d+", pat), key):   # closure numbering is not part of a site's identity
-                hit = (i, verdict, why)
+        for k_ in [key] + ([s.parent_key] if s.parent_key else []):
+            for i, (pat, verdict, why) in enumerate(TABLE):
+                if re.search(re.sub(r"::c\d+", r"::c\\d+", pat), k_):   # closure numbering is not part of a site's identity
+                    hit = (i, verdict, why)
+                    break
+            if hit:
                 break
         if hit is None:
             r.violation("site/" + key[:150], "possible panic: %s %s on (%s) is neither auto-discharged nor covered by a reviewed invariant — a transaction/block must be rejected, never abort the validator"
